@@ -14,6 +14,12 @@ const responsePaddingMaxSize = 32
 // respPadBuf is a fixed buffer to draw on for padding.
 var respPadBuf [responsePaddingMaxSize]byte
 
+// streamOptsReserve is the number of bytes kept free in a response sent over a
+// stream transport for the EDNS options that are added after the truncation:
+// the padding option (see [padAnswer]) and the edns-tcp-keepalive option (see
+// [tcpResponseWriter.addTCPKeepAlive]), each with a 4-byte option header.
+const streamOptsReserve = (4 + responsePaddingMaxSize - 1) + (4 + 2)
+
 // normalizeTCP adds an OPT record that reflects the intent from request over
 // TCP.  It also truncates and pads the response if needed.  When the request
 // was over TCP, we set the maximum allowed response size at 64K.
@@ -95,10 +101,11 @@ func truncate(resp *dns.Msg, size int) {
 // maxDNSSize returns the maximum buffer size for this network.  For
 // [NetworkTCP], it returns [dns.MaxMsgSize].  For [NetworkUDP], it takes into
 // account the advertised size in the requests EDNS(0) OPT record, if any, and
-// the given maximum value.
+// the given maximum value.  For stream networks, streamOptsReserve bytes are
+// subtracted to leave room for the options added after the truncation.
 func maxDNSSize(network Network, ednsUDPSize, maxMsgSize uint16) (n int) {
 	if network != NetworkUDP {
-		return dns.MaxMsgSize
+		return dns.MaxMsgSize - streamOptsReserve
 	}
 
 	return int(max(min(ednsUDPSize, maxMsgSize), dns.MinMsgSize))
